@@ -1,6 +1,7 @@
 //! chk-parse: C01 C02 C03 C05 C07 C11 C12 — stateless exploration of the parser's execution
 //! tree (E-TREE) plus the complete finite families.
 
+mod history;
 mod drive;
 mod nav;
 mod oracle;
@@ -16,7 +17,7 @@ use explore::{Args, Report, Tally, Tier};
 use props::*;
 
 fn trees_for(rep: &mut Report, mode: Mode, tier: Tier, which: &[&str], scale: f64, prune: (bool, bool), all_entries: bool) {
-    let vis = TextVisitor { mode, all_entries };
+    let vis = TextVisitor { mode, all_entries, short_all: tier.pick(9, 11) };
     for plan in plans(tier, which, scale) {
         run_tree(rep, &plan, prune, &vis);
     }
@@ -30,6 +31,19 @@ fn replay(args: &Args, path: &std::path::Path) -> i32 {
         Some("text") => case["text"].as_str().unwrap_or("").as_bytes().to_vec(),
         Some("bytes") => case["bytes"].as_array().map(|a| a.iter().map(|x| x.as_u64().unwrap_or(0) as u8).collect()).unwrap_or_default(),
         Some("pump") => return pump::replay(case),
+        Some("history") => {
+            return match history::replay(case) {
+                Ok(()) => {
+                    println!("replay: the case passes on the current tree");
+                    0
+                }
+                Err(e) => {
+                    println!("replay: {e}");
+                    println!("VIOLATION property={} replay={}", args.property, path.display());
+                    1
+                }
+            };
+        }
         other => {
             println!("replay of case kind {other:?} is not supported by chk-parse");
             return 2;
@@ -59,7 +73,7 @@ fn replay(args: &Args, path: &std::path::Path) -> i32 {
         let prune = if mode == Mode::C12 { (true, true) } else { (false, false) };
         // rebuild the node the way the walker would have seen it
         let dead = if v < text.len() { Some((v, text[v..].chars().next().unwrap())) } else { None };
-        let vis = TextVisitor { mode, all_entries: true };
+        let vis = TextVisitor { mode, all_entries: true, short_all: 0 };
         let fault_dead = m.first_untolerated(prune.0, prune.1).is_some();
         vis.visit(
             &tree::Node {
@@ -116,6 +130,8 @@ fn main() {
             t_corpus(&mut rep, Mode::C01, tier);
             x_all(&mut rep, Mode::C01, tier);
             pump_family(&mut rep, Mode::C01, tier);
+            history::run(&mut rep, Mode::C01, tier);
+            option_presets(&mut rep);
             rep.rule = "a state is an input prefix (node of the execution tree); every node is executed on the real parser through every entry point (13 text entry points on core nodes; parse_str/parse_slice/observed iterator on deviation nodes; parse_slice/parse_slice_with on byte nodes) and the verdict compared with R-pda (+ surrogate well-formedness, + core::str::from_utf8 for bytes); children only below viable prefixes, post-mortem horizon 2 below dead nodes; non-trivial = distinct inputs".into();
             rep.assumptions.push("strict acceptance = RFC 8259 grammar AND every \\u escape sequence denotes scalar values (no unpaired surrogate), the reading under which C01, C07 and C12 are mutually consistent".into());
             rep.assumptions.push("reference models R-pda / R-dec / core::str::from_utf8; cross-checked against each other and against serde_json on every explored node (a disagreement is a machinery error)".into());
@@ -129,6 +145,7 @@ fn main() {
             t_corpus(&mut rep, Mode::C07, tier);
             x_all(&mut rep, Mode::C07, tier);
             pump_family(&mut rep, Mode::C07, tier);
+            history::run(&mut rep, Mode::C07, tier);
             rep.rule = "every rejected node (including post-mortem nodes) of the trees: Unexpected(p,c) must carry the longest viable prefix length and the character there; InvalidUtf8 the offset of the first ill-formed sequence unless a syntax error lies strictly before it; surrogate errors the offending code units and a span inside the escape sequence(s) up to the detection point; all offsets character boundaries within the input; non-trivial = distinct rejected inputs".into();
             rep.assumptions.push("span of a surrogate error may extend to the point where the fault becomes detectable (DESIGN A.7.1)".into());
             rep.finish()
@@ -140,6 +157,7 @@ fn main() {
             spill_family(&mut rep, Mode::C02);
             duplicate_key_family(&mut rep, Mode::C02, tier);
             pump_family(&mut rep, Mode::C02, tier);
+            history::run(&mut rep, Mode::C02, tier);
             t_corpus(&mut rep, Mode::C02, Tier::Quick);
             rep.rule = "every accepted node of the trees and every member of the complete families (65 536 \\uXXXX in both hex cases, 1 048 576 surrogate pairs, 1 112 064 raw scalars, 128 backslash+ASCII) is parsed through parse_str, parse_slice and the observed iterator; the value, observed through the public accessors, must equal R-dec's abstract value; every key lookup on every object must equal a linear scan; non-trivial = distinct accepted inputs".into();
             rep.finish()
@@ -150,6 +168,7 @@ fn main() {
             spill_family(&mut rep, Mode::C05);
             duplicate_key_family(&mut rep, Mode::C05, tier);
             pump_family(&mut rep, Mode::C05, tier);
+            history::run(&mut rep, Mode::C05, tier);
             whitespace_family(&mut rep, Mode::C05);
             t_corpus(&mut rep, Mode::C05, Tier::Quick);
             rep.rule = "every accepted node: the returned code map must equal R-dec's pre-order list of (start, end, volume) exactly, through parse_str, parse_slice and the observed iterator; root volume = length, volumes >= 1, one entry per traversal fragment; non-trivial = distinct accepted inputs".into();
@@ -161,6 +180,8 @@ fn main() {
             trees_for(&mut rep, Mode::C12, tier, &["T-struct", "T-num", "T-lit", "T-str", "T-tok", "T-mixed"], 0.5, (true, true), false);
             x_all(&mut rep, Mode::C12, tier);
             pump_family(&mut rep, Mode::C12, tier);
+            history::run(&mut rep, Mode::C12, tier);
+            option_presets(&mut rep);
             if !q {
                 u_all(&mut rep, Mode::C12, Tier::Quick, false);
             }
@@ -174,6 +195,7 @@ fn main() {
             u_all(&mut rep, Mode::C03, tier, true);
             t_corpus(&mut rep, Mode::C03, tier);
             pump_family(&mut rep, Mode::C03, tier);
+            history::run(&mut rep, Mode::C03, tier);
             pump::run(&mut rep, tier);
             rep.rule = "totality: every node of the trees, every byte string of length <= 3 over all 256 values, every <=4-byte sequence family inside strings and every truncation / byte substitution of the corpus is parsed under all four option records inside catch_unwind with a watchdog and an iterator that aborts after 1000 polls past the end; stack: every nesting word of length <= 3 over the 4 container-entry forms, pumped to depth N, closed / unclosed / wrongly closed, parsed and traversed in a thread with a small fixed stack".into();
             rep.assumptions.push("dropping a deeply nested Value is recursive (observed; outside C03, which speaks of parsing and traversal): the pump leaks the value".into());
